@@ -497,6 +497,15 @@ impl PropRun {
             println!("UNDECIDED property={} n={} {:?}", self.id, undecided, names);
         }
         if unconfirmed > 0 {
+            let mut names: BTreeMap<String, usize> = BTreeMap::new();
+            for r in &self.reports {
+                for c in &r.candidates {
+                    if !c.confirmed {
+                        *names.entry(format!("{}/{}", c.harness, c.obligation)).or_insert(0) += 1;
+                    }
+                }
+            }
+            println!("  unconfirmed: {:?}", names);
             println!("UNCONFIRMED property={} n={} (solver candidates that did not reproduce on the native f64 build; not reported as violations)", self.id, unconfirmed);
         }
         for v in &vacuity_bad {
